@@ -140,18 +140,28 @@ Proof.
 Qed.
 
 (* ---- get_value ---------------------------------------------------------------------------------------------- *)
-(* the specification: evaluate the definition recursively with states at their initial values and time at zero *)
+(* the specification: evaluate the definition recursively with states at their initial values and time at zero; a
+   derivative atom d y/d t has the value of the right-hand side of the ODE of y *)
 Inductive ValueSpec (s : mstate) : vid -> Q -> Prop :=
 | VS_state v r q : dhas Nat.eqb (odef s) v = true -> nth_error (vars s) v = Some r -> v_init r = Some q ->
                    ValueSpec s v q
 | VS_free t : free_of pool s = Some t -> ValueSpec s t 0%Q
-| VS_def v e q x (env : vid -> option Q) r :
+| VS_def v e q x r :
     dhas Nat.eqb (odef s) v = false -> dget Nat.eqb (vdef s) v = Some e ->
-    nth_error pool e = Some q -> nth_error rhs e = Some x -> has_deriv x = false ->
+    nth_error pool e = Some q -> nth_error rhs e = Some x -> RhsSpec s x r -> ValueSpec s v r
+with RhsSpec (s : mstate) : expr -> Q -> Prop :=
+| RS_eval x (env : vid -> option Q) (denv : vid -> vid -> option Q) r :
     (forall d qd, env d = Some qd -> ValueSpec s d qd) ->
-    evalQ (fun z => env (Z.to_nat z)) x = Some r -> ValueSpec s v r.
+    (forall y t qd, denv y t = Some qd -> DerivSpec s y t qd) ->
+    evalQ (fun z => env (Z.to_nat z)) (fun y t => denv (Z.to_nat y) (Z.to_nat t)) x = Some r -> RhsSpec s x r
+with DerivSpec (s : mstate) : vid -> vid -> Q -> Prop :=
+| DS_ode y t e q x o n r :
+    dget Nat.eqb (odef s) y = Some e -> nth_error pool e = Some q -> nth_error rhs e = Some x ->
+    e_lhs q = LDeriv y t o n -> RhsSpec s x r -> DerivSpec s y t r.
 
-Definition MemoOk (s : mstate) (m : memo) : Prop := forall d q, mget m d = Some q -> ValueSpec s d q.
+Definition MemoOk (s : mstate) (m : memo * dmemo) : Prop :=
+  (forall d q, mget (fst m) d = Some q -> ValueSpec s d q) /\
+  (forall y t q, dmget (snd m) y t = Some q -> DerivSpec s y t q).
 
 Lemma dget_dset_nat {V} (d : list (nat * V)) k v k' :
   dget Nat.eqb (dset Nat.eqb d k v) k' = if Nat.eqb k' k then Some v else dget Nat.eqb d k'.
@@ -165,15 +175,36 @@ Proof.
       * exact IH.
 Qed.
 
+Lemma pair_eqb_spec a b : reflect (a = b) (pair_eqb a b).
+Proof.
+  destruct a as [a1 a2], b as [b1 b2]. unfold pair_eqb. cbn [fst snd].
+  destruct (Nat.eqb_spec a1 b1) as [->|H1]; cbn [andb].
+  - destruct (Nat.eqb_spec a2 b2) as [->|H2]; constructor; congruence.
+  - constructor. congruence.
+Qed.
+
+Lemma dget_dset_pair {V} (d : list ((nat * nat) * V)) k v k' :
+  dget pair_eqb (dset pair_eqb d k v) k' = if pair_eqb k' k then Some v else dget pair_eqb d k'.
+Proof.
+  induction d as [|[k0 v0] d IH]; cbn [dset dget].
+  - reflexivity.
+  - destruct (pair_eqb_spec k k0) as [->|Hne]; cbn [dget].
+    + destruct (pair_eqb_spec k' k0); reflexivity.
+    + destruct (pair_eqb_spec k' k0) as [->|Hne'].
+      * destruct (pair_eqb_spec k0 k); [congruence|reflexivity].
+      * exact IH.
+Qed.
+
 Lemma dget_app_nat {V} (a b : list (nat * V)) k :
   dget Nat.eqb (a ++ b) k = match dget Nat.eqb a k with Some v => Some v | None => dget Nat.eqb b k end.
 Proof.
   induction a as [|[k0 v0] a IH]; cbn [app dget]; [reflexivity|]. destruct (Nat.eqb k k0); [reflexivity|exact IH].
 Qed.
 
-Lemma initial_memo_ok s : MemoOk s (initial_memo pool s).
+Lemma initial_memo_ok s : MemoOk s (initial_memo pool s, []).
 Proof.
-  intros d q H. unfold initial_memo, mget in H. rewrite dget_app_nat in H.
+  split; [|intros y t q H; discriminate].
+  cbn [fst]. intros d q H. unfold initial_memo, mget in H. rewrite dget_app_nat in H.
   destruct (free_of pool s) as [t|] eqn:Hf; cbn [dget] in H.
   - destruct (Nat.eqb_spec d t) as [->|Hne]; [injection H as <-; apply VS_free; exact Hf|].
     apply dget_in in H. apply in_flat_map in H as [[v e] [Hin Hx]]. cbn [fst] in Hx.
@@ -190,16 +221,46 @@ Proof.
     destruct (Nat.eqb_spec v k) as [->|Hne]; [discriminate|]. destruct Hin as [[= -> _]|Hin]; [congruence|apply IH; assumption].
 Qed.
 
-Definition dep_step (f : nat) (s : mstate) (acc : vres memo) (d : vid) : vres memo :=
+Definition dep_step (f : nat) (s : mstate) (acc : vres (memo * dmemo)) (d : vid) : vres (memo * dmemo) :=
   match acc with
   | VErr e0 => VErr e0
-  | VOk m0 => match mget m0 d with
+  | VOk m0 => match mget (fst m0) d with
               | Some _ => VOk m0
-              | None => match value_of pool rhs f s m0 d with
-                        | VOk (x0, m'') => VOk (dset Nat.eqb m'' d x0)
+              | None => if dhas Nat.eqb (odef s) d then VOk m0 else
+                        match value_of pool rhs f s m0 d with
+                        | VOk (x0, m'') => VOk (dset Nat.eqb (fst m'') d x0, snd m'')
                         | VErr e0 => VErr e0
                         end
               end
+  end.
+
+Definition der_step (f : nat) (s : mstate) (acc : vres (memo * dmemo)) (r : ref) : vres (memo * dmemo) :=
+  match acc, r with
+  | VErr e, _ => VErr e
+  | VOk m', RVar _ => VOk m'
+  | VOk m', RDer y t =>
+      match dmget (snd m') y t with
+      | Some _ => VOk m'
+      | None =>
+          match dget Nat.eqb (odef s) y with
+          | None => VErr VValue
+          | Some e' =>
+              match nth_error pool e', nth_error rhs e' with
+              | Some q', Some x' =>
+                  match e_lhs q' with
+                  | LDeriv y' t' _ _ =>
+                      if Nat.eqb y' y && Nat.eqb t' t then
+                        match eval_rhs pool rhs f s m' q' x' with
+                        | VOk (r0, m'') => VOk (fst m'', dset pair_eqb (snd m'') (y, t) r0)
+                        | VErr e => VErr e
+                        end
+                      else VErr VValue
+                  | _ => VErr VValue
+                  end
+              | _, _ => VErr VOutside
+              end
+          end
+      end
   end.
 
 Lemma value_of_S f s m v : value_of pool rhs (S f) s m v =
@@ -216,61 +277,101 @@ Lemma value_of_S f s m v : value_of pool rhs (S f) s m v =
               end
     | Some e =>
         match nth_error pool e, nth_error rhs e with
-        | Some q, Some x =>
-            match fold_left (dep_step f s) (e_atoms q) (VOk m) with
-            | VErr e0 => VErr e0
-            | VOk m' => if has_deriv x then VErr VValue
-                        else match evalQ (fun z => mget m' (Z.to_nat z)) x with
-                             | Some r => VOk (r, m')
-                             | None => VErr VOutside
-                             end
-            end
+        | Some q, Some x => eval_rhs pool rhs f s m q x
         | _, _ => VErr VOutside
         end
     end.
 Proof. reflexivity. Qed.
 
+Lemma eval_rhs_S f s m q x : eval_rhs pool rhs (S f) s m q x =
+  match fold_left (der_step f s) (e_refs q) (VOk m) with
+  | VErr e => VErr e
+  | VOk m1 =>
+      match fold_left (dep_step f s) (e_atoms q) (VOk m1) with
+      | VErr e => VErr e
+      | VOk m2 =>
+          if existsb (fun r => match r with
+                               | RVar v => dhas Nat.eqb (odef s) v && match mget (fst m2) v with Some _ => false | None => true end
+                               | RDer _ _ => false
+                               end) (e_refs q) then VErr VType else
+          match evalQ (fun z => mget (fst m2) (Z.to_nat z)) (fun y t => dmget (snd m2) (Z.to_nat y) (Z.to_nat t)) x with
+          | Some r => VOk (r, m2)
+          | None => VErr VOutside
+          end
+      end
+  end.
+Proof. reflexivity. Qed.
+
 Lemma dep_step_err f s deps e0 : fold_left (dep_step f s) deps (VErr e0) = VErr e0.
 Proof. induction deps as [|d deps IH]; cbn [fold_left dep_step]; [reflexivity|exact IH]. Qed.
+Lemma der_step_err f s refs e0 : fold_left (der_step f s) refs (VErr e0) = VErr e0.
+Proof. induction refs as [|d refs IH]; cbn [fold_left der_step]; [reflexivity|exact IH]. Qed.
 
-Lemma value_of_sound fuel s : forall m v x m', MemoOk s m -> value_of pool rhs fuel s m v = VOk (x, m') ->
-  ValueSpec s v x /\ MemoOk s m'.
+Lemma value_of_sound fuel s :
+  (forall m v x m', MemoOk s m -> value_of pool rhs fuel s m v = VOk (x, m') -> ValueSpec s v x /\ MemoOk s m') /\
+  (forall m q x r m', MemoOk s m -> eval_rhs pool rhs fuel s m q x = VOk (r, m') -> RhsSpec s x r /\ MemoOk s m').
 Proof.
-  induction fuel as [|f IH]; intros m v x m' Hm H; [discriminate|]. rewrite value_of_S in H.
-  destruct (dhas Nat.eqb (odef s) v) eqn:Hst.
-  - destruct (nth_error (vars s) v) as [r|] eqn:Hr; [|discriminate]. destruct (v_init r) as [q|] eqn:Hi; [|discriminate].
-    injection H as <- <-. split; [apply (VS_state s v r q); assumption|exact Hm].
-  - destruct (dget Nat.eqb (vdef s) v) as [e|] eqn:Hd.
-    + destruct (nth_error pool e) as [q|] eqn:Hq; [|discriminate]. destruct (nth_error rhs e) as [ex|] eqn:Hx; [|discriminate].
-      assert (Hfold : forall deps m0 m1, MemoOk s m0 -> fold_left (dep_step f s) deps (VOk m0) = VOk m1 -> MemoOk s m1).
-      { induction deps as [|d deps IHd]; intros m0 m1 H0 Hf; cbn [fold_left] in Hf; [injection Hf as <-; exact H0|].
-        unfold dep_step at 2 in Hf.
-        destruct (mget m0 d) as [qd|] eqn:Hg; [apply (IHd m0 m1 H0 Hf)|].
-        destruct (value_of pool rhs f s m0 d) as [[x0 m'']|e0] eqn:Hv; [|rewrite dep_step_err in Hf; discriminate].
-        destruct (IH m0 d x0 m'' H0 Hv) as [Hs Hm''].
-        apply (IHd (dset Nat.eqb m'' d x0) m1); [|exact Hf].
-        intros d' q' Hget. unfold mget in Hget. rewrite dget_dset_nat in Hget.
-        destruct (Nat.eqb_spec d' d) as [->|]; [injection Hget as <-; exact Hs|apply Hm''; exact Hget]. }
-      destruct (fold_left (dep_step f s) (e_atoms q) (VOk m)) as [m1|e1] eqn:Hf; [|discriminate].
-      destruct (has_deriv ex) eqn:Hdv; [discriminate|].
-      destruct (evalQ (fun z => mget m1 (Z.to_nat z)) ex) as [r|] eqn:He; [|discriminate].
-      injection H as <- <-. pose proof (Hfold (e_atoms q) m m1 Hm Hf) as Hm1. split; [|exact Hm1].
-      apply (VS_def s v e q ex (mget m1) r); try assumption.
-    + destruct (odef s) as [|p l] eqn:Ho; [discriminate|]. destruct (free_of pool s) as [t|] eqn:Hf; [|discriminate].
-      destruct (Nat.eqb_spec t v) as [->|]; [|discriminate]. injection H as <- <-. split; [apply VS_free; exact Hf|exact Hm].
+  induction fuel as [|f [IHv IHe]]; [split; intros; discriminate|]. split.
+  - intros m v x m' Hm H. rewrite value_of_S in H.
+    destruct (dhas Nat.eqb (odef s) v) eqn:Hst.
+    + destruct (nth_error (vars s) v) as [r|] eqn:Hr; [|discriminate]. destruct (v_init r) as [q|] eqn:Hi; [|discriminate].
+      injection H as <- <-. split; [apply (VS_state s v r q); assumption|exact Hm].
+    + destruct (dget Nat.eqb (vdef s) v) as [e|] eqn:Hd.
+      * destruct (nth_error pool e) as [q|] eqn:Hq; [|discriminate]. destruct (nth_error rhs e) as [ex|] eqn:Hx; [|discriminate].
+        destruct (IHe m q ex x m' Hm H) as [Hs Hm']. split; [|exact Hm'].
+        apply (VS_def s v e q ex x); assumption.
+      * destruct (odef s) as [|p l] eqn:Ho; [discriminate|]. destruct (free_of pool s) as [t|] eqn:Hf; [|discriminate].
+        destruct (Nat.eqb_spec t v) as [->|]; [|discriminate]. injection H as <- <-. split; [apply VS_free; exact Hf|exact Hm].
+  - intros m q x r m' Hm H. rewrite eval_rhs_S in H.
+    assert (Hders : forall refs m0 m1, MemoOk s m0 -> fold_left (der_step f s) refs (VOk m0) = VOk m1 -> MemoOk s m1).
+    { induction refs as [|d refs IHd]; intros m0 m1 H0 Hf; cbn [fold_left] in Hf; [injection Hf as <-; exact H0|].
+      destruct d as [v0|y t]; cbn [der_step] in Hf; [apply (IHd m0 m1 H0 Hf)|].
+      destruct (dmget (snd m0) y t) as [qd|] eqn:Hg; [apply (IHd m0 m1 H0 Hf)|].
+      destruct (dget Nat.eqb (odef s) y) as [e'|] eqn:Ho; [|rewrite der_step_err in Hf; discriminate].
+      destruct (nth_error pool e') as [q'|] eqn:Hq'; [|rewrite der_step_err in Hf; discriminate].
+      destruct (nth_error rhs e') as [x'|] eqn:Hx'; [|rewrite der_step_err in Hf; discriminate].
+      destruct (e_lhs q') as [|y' t' o n|] eqn:Hl; try (rewrite der_step_err in Hf; discriminate).
+      destruct (Nat.eqb y' y && Nat.eqb t' t) eqn:Hyt; [|rewrite der_step_err in Hf; discriminate].
+      apply andb_true_iff in Hyt as [Hy Ht]. apply Nat.eqb_eq in Hy. apply Nat.eqb_eq in Ht. subst y' t'.
+      destruct (eval_rhs pool rhs f s m0 q' x') as [[r0 m'']|e0] eqn:Hv; [|rewrite der_step_err in Hf; discriminate].
+      destruct (IHe m0 q' x' r0 m'' H0 Hv) as [Hs [Hm1 Hm2]].
+      apply (IHd (fst m'', dset pair_eqb (snd m'') (y, t) r0) m1); [|exact Hf].
+      split; cbn [fst snd]; [exact Hm1|].
+      intros y0 t0 q0 Hget. unfold dmget in Hget. rewrite dget_dset_pair in Hget.
+      destruct (pair_eqb_spec (y0, t0) (y, t)) as [E|Hne].
+      - injection E as -> ->. injection Hget as <-. apply (DS_ode s y t e' q' x' o n r0); assumption.
+      - apply Hm2. exact Hget. }
+    assert (Hdeps : forall deps m0 m1, MemoOk s m0 -> fold_left (dep_step f s) deps (VOk m0) = VOk m1 -> MemoOk s m1).
+    { induction deps as [|d deps IHd]; intros m0 m1 H0 Hf; cbn [fold_left] in Hf; [injection Hf as <-; exact H0|].
+      unfold dep_step at 2 in Hf.
+      destruct (mget (fst m0) d) as [qd|] eqn:Hg; [apply (IHd m0 m1 H0 Hf)|].
+      destruct (dhas Nat.eqb (odef s) d) eqn:Hsd; [apply (IHd m0 m1 H0 Hf)|].
+      destruct (value_of pool rhs f s m0 d) as [[x0 m'']|e0] eqn:Hv; [|rewrite dep_step_err in Hf; discriminate].
+      destruct (IHv m0 d x0 m'' H0 Hv) as [Hs [Hm1 Hm2]].
+      apply (IHd (dset Nat.eqb (fst m'') d x0, snd m'') m1); [|exact Hf].
+      split; cbn [fst snd]; [|exact Hm2].
+      intros d' q' Hget. unfold mget in Hget. rewrite dget_dset_nat in Hget.
+      destruct (Nat.eqb_spec d' d) as [->|]; [injection Hget as <-; exact Hs|apply Hm1; exact Hget]. }
+    destruct (fold_left (der_step f s) (e_refs q) (VOk m)) as [m1|e1] eqn:Hf1; [|discriminate].
+    destruct (fold_left (dep_step f s) (e_atoms q) (VOk m1)) as [m2|e2] eqn:Hf2; [|discriminate].
+    destruct (existsb _ (e_refs q)); [discriminate|].
+    destruct (evalQ _ _ x) as [r'|] eqn:He; [|discriminate].
+    injection H as <- <-.
+    pose proof (Hdeps _ _ _ (Hders _ _ _ Hm Hf1) Hf2) as [Hm2a Hm2b]. split; [|split; assumption].
+    apply (RS_eval s x (mget (fst m2)) (dmget (snd m2)) r'); assumption.
 Qed.
 
 Theorem get_value_sound fuel s v x : get_value pool rhs fuel s v = VOk x -> ValueSpec s v x.
 Proof.
-  unfold get_value. destruct (value_of pool rhs fuel s (initial_memo pool s) v) as [[y m']|] eqn:H; [|discriminate].
-  intros [= <-]. destruct (value_of_sound fuel s _ v y m' (initial_memo_ok s) H) as [A _]. exact A.
+  unfold get_value. destruct (value_of pool rhs fuel s (initial_memo pool s, []) v) as [[y m']|] eqn:H; [|discriminate].
+  intros [= <-]. destruct (proj1 (value_of_sound fuel s) _ v y m' (initial_memo_ok s) H) as [A _]. exact A.
 Qed.
 
 End WithPool.
 
-(* F9: a definition that mentions a derivative has a well-defined value, yet get_value raises *)
-Lemma get_value_derivative_refuted :
-  exists pool rhs s v fuel, get_value pool rhs fuel s v = VErr VValue /\
+(* a definition that mentions a derivative: d x/d t = 1 (initial value x = 1), y = d x/d t: get_value y = 1 *)
+Example get_value_derivative_example :
+  exists pool rhs s v fuel, get_value pool rhs fuel s v = VOk 1%Q /\
     exists e x, dget Nat.eqb (vdef s) v = Some e /\ nth_error rhs e = Some x /\ has_deriv x = true.
 Proof.
   pose (pool := [ {| e_lhs := LDeriv 0%nat 1%nat 1%Z 1%Z; e_refs := []; e_isqty := true; e_hasqty := true; e_refs_num := []; e_atoms := [] |};
@@ -279,6 +380,6 @@ Proof.
   pose (rhs := [EQty 0 1%Q 0; EDeriv (EVar 0) (EVar 1) 1]).
   pose (s := run pool (init_state None)
                  [OAddVar [120%Z] None (Some 1%Q); OAddVar [116%Z] None None; OAddVar [121%Z] None None; OAddEq 0%nat; OAddEq 1%nat]).
-  exists pool, rhs, s, 2%nat, 5%nat. split; [vm_compute; reflexivity|].
+  exists pool, rhs, s, 2%nat, 9%nat. split; [vm_compute; reflexivity|].
   exists 1%nat, (EDeriv (EVar 0) (EVar 1) 1). repeat split.
 Qed.
